@@ -1,0 +1,72 @@
+// Verification hooks (compiled only with `--cfg mech_verif`): loop-progress log of the parser's
+// hand-written loops.  Each loop instance calls `enter(site)` once and `progress(id, site, cursor, len)`
+// at the head of every iteration.  Events are (site, instance, cursor, len).  A loop instance that
+// observes the same cursor three times in a row cannot terminate: it panics, so that a harness
+// wrapping the parser in catch_unwind sees `no progress` instead of hanging.
+use std::cell::RefCell;
+
+thread_local! {
+  static LOG: RefCell<Vec<(&'static str, u64, usize, usize)>> = RefCell::new(Vec::new());
+  static NEXT: RefCell<u64> = RefCell::new(0);
+  static LAST: RefCell<Vec<(u64, usize, u32)>> = RefCell::new(Vec::new());
+  static ENABLED: RefCell<bool> = RefCell::new(false);
+}
+
+const MAX_EVENTS: usize = 400_000;
+
+pub fn reset() {
+  LOG.with(|l| l.borrow_mut().clear());
+  LAST.with(|l| l.borrow_mut().clear());
+  NEXT.with(|n| *n.borrow_mut() = 0);
+  ENABLED.with(|e| *e.borrow_mut() = true);
+}
+
+pub fn take() -> Vec<(&'static str, u64, usize, usize)> {
+  ENABLED.with(|e| *e.borrow_mut() = false);
+  LAST.with(|l| l.borrow_mut().clear());
+  LOG.with(|l| std::mem::take(&mut *l.borrow_mut()))
+}
+
+pub fn enter(_site: &'static str) -> u64 {
+  NEXT.with(|n| {
+    let mut n = n.borrow_mut();
+    *n += 1;
+    *n
+  })
+}
+
+pub fn progress(id: u64, site: &'static str, cursor: usize, len: usize) {
+  if !ENABLED.with(|e| *e.borrow()) {
+    return;
+  }
+  LOG.with(|l| {
+    let mut l = l.borrow_mut();
+    if l.len() < MAX_EVENTS {
+      l.push((site, id, cursor, len));
+    }
+  });
+  let stuck = LAST.with(|l| {
+    let mut l = l.borrow_mut();
+    // keep only a short window of live instances
+    if l.len() > 64 {
+      l.remove(0);
+    }
+    for e in l.iter_mut() {
+      if e.0 == id {
+        if e.1 == cursor {
+          e.2 += 1;
+          return e.2 >= 3;
+        } else {
+          e.1 = cursor;
+          e.2 = 1;
+          return false;
+        }
+      }
+    }
+    l.push((id, cursor, 1));
+    false
+  });
+  if stuck {
+    panic!("verif: no progress at {} cursor {}", site, cursor);
+  }
+}
